@@ -218,6 +218,9 @@ def _gaps(v):
     return np.min(np.diff(v)) if v.size > 1 else np.inf
 
 
+KINKS_OK = [False]   # set by GenState.try_emit for the duration of a precondition test
+
+
 def precond(ins, regs):
     """True iff the instruction is admissible on these ndarray registers (margins of DESIGN 3.4)"""
     op = ins[0]
@@ -226,6 +229,8 @@ def precond(ins, regs):
             v = regs[ins[2]]
             if _is_cplx(v):
                 return False
+            if KINKS_OK[0] and ins[1] in ('absolute', 'sign'):
+                return True
             return bool(UN_PRE[ins[1]](np.asarray(v)))
         if op == 'unp':
             v = np.asarray(regs[ins[3]])
@@ -237,6 +242,8 @@ def precond(ins, regs):
                 return bool(np.all((v >= 0.5) & (v <= 4)))
             if ins[1] == 'botched_clip':
                 lo, hi = ins[2]
+                if KINKS_OK[0]:
+                    return True
                 return bool(np.all((np.abs(v - lo) >= 0.05) & (np.abs(v - hi) >= 0.05)))
         if op == 'bin':
             a, b = np.asarray(regs[ins[2]]), np.asarray(regs[ins[3]])
@@ -303,7 +310,7 @@ def precond(ins, regs):
             return bool(_gaps(np.linalg.eigvalsh(m + m.T)) >= 0.3)
         if op == 'minmax':
             a, b = np.asarray(regs[ins[2]]), np.asarray(regs[ins[3]])
-            return a.shape == b.shape and not _is_cplx(a) and not _is_cplx(b) and bool(np.all(np.abs(a - b) >= 0.05))
+            return a.shape == b.shape and not _is_cplx(a) and not _is_cplx(b) and (KINKS_OK[0] or bool(np.all(np.abs(a - b) >= 0.05)))
         if op == 'umax':
             v = np.sort(np.ravel(np.asarray(regs[ins[1]])))
             return not _is_cplx(v) and v.size >= 1 and (v.size == 1 or bool(v[-1] - v[-2] >= 0.05))
@@ -312,7 +319,7 @@ def precond(ins, regs):
             return m.ndim == 2
         if op == 'abs':
             v = np.asarray(regs[ins[1]])
-            return not _is_cplx(v) and bool(np.all(np.abs(v) >= 0.05))
+            return not _is_cplx(v) and (KINKS_OK[0] or bool(np.all(np.abs(v) >= 0.05)))
         if op == 'expm':
             m = np.asarray(regs[ins[1]]) * ins[2]
             return m.ndim == 2 and m.shape[0] == m.shape[1] and not _is_cplx(m) and bool(np.abs(m).sum(axis=0).max() <= 0.5)
@@ -375,10 +382,15 @@ class GenState:
         """evaluate at all probe points; emit iff preconditions + magnitudes hold; returns success"""
         op = ins[0]
         outs = []
-        for k in range(self.K):
-            regs = self.regs[k]
-            if not precond(ins, regs):
-                return False
+        prev = KINKS_OK[0]
+        KINKS_OK[0] = bool(getattr(self, 'kinks_ok', False))
+        try:
+            for k in range(self.K):
+                regs = self.regs[k]
+                if not precond(ins, regs):
+                    return False
+        finally:
+            KINKS_OK[0] = prev
         if op in ('set', 'setc'):
             # shape compatibility must be known before mutating anything
             tgt = self.regs[0][ins[1]][ins[2]]
@@ -482,14 +494,15 @@ def _basic_index(draw, shape):
 
 @st.composite
 def programs(draw, n_inputs=(1, 2), max_len=8, families=None, out='any', K=4, in_rank=(0, 1, 2), max_side=3,
-             allow_set_broadcast=True, allow_ndim_dot=False, min_len=1, first=None, allow_ones=True, raw_vectors=True, poly=False):
+             allow_set_broadcast=True, allow_ndim_dot=False, min_len=1, first=None, allow_ones=True, raw_vectors=True, poly=False, kinks_ok=False):
     """draw (inputs' probe points, program).  Returns dict(pts=[array (K,)+shape ...], prog=[...], out=reg)."""
     fams = list(families or FAMILIES_ALL)
     nin = draw(st.integers(n_inputs[0], n_inputs[1]))
     pts = []
     for i in range(nin):
         if i == 0 and first in FIRST_INPUT:
-            pts.append(draw(_special_input(first, K, max_side)))
+            f1 = 'pow' if (kinks_ok and first in ('kink', 'abs')) else first     # 'pow' inputs contain exact zeros
+            pts.append(draw(_special_input(f1, K, max_side)))
             continue
         rank = draw(st.sampled_from(list(in_rank)))
         if rank == 2 and draw(st.booleans()):
@@ -509,6 +522,7 @@ def programs(draw, n_inputs=(1, 2), max_len=8, families=None, out='any', K=4, in
         pts.append(p)
     S = GenState(pts)
     S.raw_vectors = raw_vectors
+    S.kinks_ok = kinks_ok   # metamorphic forward checks do not need smoothness: kink points (abs(0), ties of min/max) are admitted
     S.poly = poly      # restrict to the polynomial instruction subset (exact analytic derivatives exist)
     L = draw(st.integers(min_len, max_len))
     if first is not None:
@@ -528,7 +542,7 @@ FIRST_INPUT = {'inv': 'regular', 'det': 'regular', 'logdet': 'posdet', 'solve': 
                'chol': 'square', 'eigh': 'gapsym', 'svd': 'svd', 'trace': 'matrix', 'T': 'matrix', 'diag': 'vecorsquare',
                'symvec': 'square', 'outer': 'vector', 'dot': 'vecormat', 'dotc': 'vecormat', 'prod': 'vector', 'tile': 'vecormat',
                'sum': 'vecormat', 'reshape': 'vecormat', 'get': 'vecormat', 'fft': 'vecormat', 'tri': 'matrix',
-               'expm': 'square', 'svdfull': 'svd', 'minmax': 'vecormat', 'umax': 'vector', 'kink': 'awayzero', 'abs': 'awayzero', 'pow': 'withzeros'}
+               'expm': 'square', 'svdfull': 'svd', 'minmax': 'vecormat', 'umax': 'vector', 'kink': 'awayzero', 'abs': 'awayzero', 'pow': 'withzeros', 'special': 'unitinterval', 'unp': 'unitinterval', 'unfwd': 'unitinterval'}
 
 
 @st.composite
@@ -560,6 +574,10 @@ def _special_input(draw, first, K, max_side):
             a = draw(gen.float_array((n, n), elems, sparse=False))
             mats.append(0.5 * sym + 0.5 * (a - a.T))      # m + m^T == sym
         return np.array(mats)
+    if kind == 'unitinterval':
+        # inside the domain of every special function of the registry (logit, gammaln, psi, polygamma, hyperu, arcsin, ...)
+        shape = draw(st.sampled_from([(), (n,), (2, n)]))
+        return draw(gen.float_array((K,) + shape, gen.nice_floats(0.55, 0.78), sparse=False))
     if kind == 'withzeros':
         shape = draw(st.sampled_from([(), (n,), (2, n)]))
         return draw(gen.float_array((K,) + shape, st.sampled_from([0.0, 0.0, 1.0, -1.0, 0.5, 2.0, -0.5, 1.5]), sparse=False))
@@ -604,6 +622,16 @@ def _real(S):
 
 
 def _emit_family(draw, S, fam, allow_set_broadcast=True, allow_ndim_dot=False, allow_ones=True):
+    # precondition tests made while choosing operands see the same kink policy as try_emit
+    prev = KINKS_OK[0]
+    KINKS_OK[0] = bool(getattr(S, 'kinks_ok', False))
+    try:
+        return _emit_family_impl(draw, S, fam, allow_set_broadcast, allow_ndim_dot, allow_ones)
+    finally:
+        KINKS_OK[0] = prev
+
+
+def _emit_family_impl(draw, S, fam, allow_set_broadcast=True, allow_ndim_dot=False, allow_ones=True):
     raw_vectors = getattr(S, 'raw_vectors', True)
     poly = getattr(S, 'poly', False)
     real = _real(S)
